@@ -3,6 +3,7 @@ C03 — resource sets behave as exact, canonical sets of addresses / AS numbers.
 Only property theorems and non-vacuity examples; lemmas are in Rpki/Proofs/Chain*.lean.
 -/
 import Rpki.Proofs.AsDerCodec
+import Rpki.Proofs.IpDerCodec
 import Rpki.Proofs.ChainPrefix
 import Rpki.Proofs.ChainOps
 namespace Rpki.C03
@@ -133,12 +134,52 @@ theorem fromIter_canon_id (M : Nat) (c : List Blk) (hc : Canon M c) : fromIter M
   AsDer.fromIter_canon_id M c hc
 
 
+/-! ## the RFC 3779 IP address blocks in DER -/
+
+/-- **One prefix.** The BIT STRING content written for a prefix (`Prefix: PrimitiveContent`) is read
+back by `Prefix::from_bit_string` as the same address and length, for every length 0…128. -/
+theorem ipPrefix_roundtrip (a len : Nat) (hlen : len ≤ 128) (ha : a < 2 ^ 128) (hmin : IpDer.toMin a len = a) :
+    IpDer.prefixOfContent (IpDer.encodePrefixContent a len) = some (a, len) :=
+  IpDer.prefixOfContent_encode a len hlen ha hmin
+
+/-- **One block.** Every well-formed block — a prefix or a range, written in the shortest form
+with `min_to_prefix` / `max_to_prefix` — is read back as itself, whatever follows it. -/
+theorem ipBlock_roundtrip (b : Blk) (hb : b.lo ≤ b.hi) (hhi : b.hi ≤ IpDer.maxAddr) (rest : List Nat) :
+    IpDer.takeOptBlock 128 (IpDer.encodeBlock b ++ rest) = .ok b rest :=
+  IpDer.takeOptBlock_encodeBlock b hb hhi rest
+
+/-- **A whole set.** Every canonical chain of address blocks, encoded by `IpBlocks::encode_ref`, is
+decoded by `IpBlocks::take_from_with_family` as the same chain — no bound on the number of blocks. -/
+theorem ipBlocks_roundtrip (c : List Blk) (hc : Canon IpDer.maxAddr c) :
+    IpDer.decodeBlocks 128 (IpDer.encodeBlocks c) = some c := IpDer.decodeBlocks_encodeBlocks c hc
+
+/-- **Decoding.** Whatever octets the reader accepts — blocks in any order, overlapping, adjacent,
+ranges that are prefixes — the result is a canonical chain … -/
+theorem ipBlocks_decode_canonical (W : Nat) (b : List Nat) (hb : ∀ x ∈ b, x < 256) (c : List Blk)
+    (h : IpDer.decodeBlocks W b = some c) : Canon IpDer.maxAddr c := IpDer.decodeBlocks_sound W b hb c h
+
+/-- … denoting exactly the union of the blocks listed in the encoding. -/
+theorem ipBlocks_decode_den (W : Nat) (b : List Nat) (hb : ∀ x ∈ b, x < 256) (c : List Blk)
+    (h : IpDer.decodeBlocks W b = some c) :
+    ∃ content rest bs, Der.takeCons Der.tagSeq b = some (content, rest) ∧
+      IpDer.blocksLoop W content.length content = some bs ∧
+      ∀ x, mem c x ↔ ∃ blk ∈ bs, blk.lo ≤ x ∧ x ≤ blk.hi := IpDer.decodeBlocks_den W b hb c h
+
+/-- **IPv4 in the shared 128-bit space.** A block read with the IPv4 family starts on and ends before a
+2^96 boundary: it is a range of IPv4 addresses, nothing of it leaks into the low 96 bits. -/
+theorem ipBlock_v4_shape (b : List Nat) (blk : Blk) (rest : List Nat)
+    (h : IpDer.takeOptBlock 32 b = .ok blk rest) : blk.lo % 2 ^ 96 = 0 ∧ blk.hi % 2 ^ 96 = 2 ^ 96 - 1 :=
+  IpDer.takeOptBlock_v4_shape' b blk rest h
+
+
 /-! ## Non-vacuity -/
 
 example : Canon 4294967295 [⟨0, 2⟩, ⟨4, 4⟩, ⟨4294967294, 4294967295⟩] := by
   refine ⟨?_, ?_⟩
   · intro b hb; simp at hb; rcases hb with rfl | rfl | rfl <;> decide
   · simp [List.pairwise_cons]
+example : IpDer.decodeBlocks 32 (IpDer.encodeBlocks [⟨10 * 2 ^ 120, 11 * 2 ^ 120 - 1⟩]) = some [⟨10 * 2 ^ 120, 11 * 2 ^ 120 - 1⟩] := by decide
+example : IpDer.decodeBlocks 128 [0x30, 8, 0x30, 6, 3, 1, 0, 3, 1, 0] = some [⟨0, IpDer.maxAddr⟩] := by decide
 example : fromIter 100 [⟨10, 20⟩, ⟨30, 40⟩, ⟨15, 35⟩] = [⟨10, 40⟩] := by decide
 example : difference [⟨0, 10⟩] [⟨3, 4⟩, ⟨10, 12⟩] = [⟨0, 2⟩, ⟨5, 9⟩] := by decide
 example : verifyIssued 100 [⟨0, 50⟩] (.blocks [⟨40, 60⟩]) true = some [⟨40, 50⟩] := by decide
